@@ -160,7 +160,7 @@ func init() {
 		Filter: func(s *schema.Schema, avoid map[string]string) bool {
 			return avoid["mock_unsupported_fields"] == "" || schema.MockCompilable(s)
 		},
-		Batches: [2]int{1, 10}, PerBatch: [2]int{48, 64}, Cases: [2]int{60, 300},
+		Batches: [2]int{1, 10}, PerBatch: [2]int{112, 64}, Cases: [2]int{60, 300},
 		Rule:        "cases = (schema generated with generate_mock=true: response fields of the kinds/cardinalities the mock generator handles today plus every kind it skips, nested and map fields, several services, field_examples incl. unparsable entries) x RPC x valid request (JSON or binary) x repeated invocations. Oracle: the package incl. *_http_mock.pb.go builds and vets; the generated server backed by NewMock<Service>Server answers 200; the body decodes into the response type and is the documented JSON form of it; a field declaring examples holds one of the parsable ones. Non-trivial = response type with fields; distinct by (request, response body).",
 		Assumptions: append([]string{"while KF-C20-1 is open, schemas whose response types use field shapes the mock generator cannot compile are rejected by the generator filter (counted in classes) and demonstrated by the pinned replay", "validation of mock responses against the OpenAPI response schema is performed by C06's machinery on the same kind of bodies, not repeated here"}, commonAssumptions...)})
 	registerRuntime(&runtimeCheck{ID: "C06", Profile: schema.ProfileContract, Inner: []string{"c06"}, Prefix: "g", Prepare: prepareOpenAPI,
